@@ -299,7 +299,7 @@ impl Prop for C10 {
     }
     fn runs(&self, tier: Tier) -> u64 {
         match tier {
-            Tier::Quick => 150_000,
+            Tier::Quick => 1_000_000,
             Tier::Thorough => 6_000_000,
         }
     }
